@@ -248,26 +248,55 @@ def keyClasses (outs : List (Option (KeyShare S P))) : String :=
       | none => (acc.1 ++ [ks.commits], acc.2 ++ toString acc.1.length)
   (outs.foldl step ([], "")).2
 
+/-- the world after the events of a case line -/
+def runWorld (n : Nat) (defs evs : String) : World :=
+  let dl : List (String × String) :=
+    if defs = "-" then [] else (defs.splitOn ";").map (fun d =>
+      match d.splitOn "=" with
+      | k :: rest => (k, String.intercalate "=" rest)
+      | [] => ("", ""))
+  let dup : List Nat := match dl.find? (fun d => d.1 = "DUP") with
+    | some d => (d.2.splitOn ".").map parseNat
+    | none => []
+  let needPrev := dl.any (fun d => d.2.startsWith "P" || (d.2.splitOn ".prev").length > 1)
+  let needPrevF := dl.any (fun d => d.2.startsWith "F")
+  let w0 : World := { n := n, dup := dup, ms := freshMembers dup n 11 9000, prev := if needPrev then some (runPrev dup n) else none,
+                      prevF := if needPrevF then some (runPrevFresh n) else none }
+  if evs = "-" then w0 else (evs.splitOn ",").foldl (stepEvent dl) w0
+
 /-- "<kind> <seed> <n> <defs|-> <events>" → "st=… keys=…" -/
 def runLine (w : List String) : String :=
   match w with
   | [_, _seed, n, defs, evs] =>
-    let n := parseNat n
-    let dl : List (String × String) :=
-      if defs = "-" then [] else (defs.splitOn ";").map (fun d =>
-        match d.splitOn "=" with
-        | k :: rest => (k, String.intercalate "=" rest)
-        | [] => ("", ""))
-    let dup : List Nat := match dl.find? (fun d => d.1 = "DUP") with
-      | some d => (d.2.splitOn ".").map parseNat
-      | none => []
-    let needPrev := dl.any (fun d => d.2.startsWith "P" || (d.2.splitOn ".prev").length > 1)
-    let needPrevF := dl.any (fun d => d.2.startsWith "F")
-    let w0 : World := { n := n, dup := dup, ms := freshMembers dup n 11 9000, prev := if needPrev then some (runPrev dup n) else none,
-                        prevF := if needPrevF then some (runPrevFresh n) else none }
-    let w1 := if evs = "-" then w0 else (evs.splitOn ",").foldl (stepEvent dl) w0
+    let w1 := runWorld (parseNat n) defs evs
     let outs := w1.ms.map (fun m => match m.stage with | .done _ ks => some ks | _ => none)
     s!"st={String.intercalate "," (w1.ms.map stageCode)} keys={keyClasses outs}"
+  | _ => "bad-op"
+
+/-- "netadv <seed> <n> <byz a.b> <order> <defs> <events>" (go/internal/dkgnet/netadv.go): the same events on the
+member machines; the real run shows, per honest member, only finished / failed why / still waiting, and the
+Byzantine seats are not members at all (`x`) -/
+def runLineNet (w : List String) : String :=
+  match w with
+  | [_, _seed, n, byz, _order, defs, evs] =>
+    let n := parseNat n
+    let bz : List Nat := (byz.splitOn ".").map parseNat
+    let w1 := runWorld n defs evs
+    let code (m : Member S P) : String :=
+      match m.stage with
+      | .done _ _ => "D"
+      | .failed why => "F:" ++ why
+      | _ => "w"
+    let idx := List.range w1.ms.length
+    let sts := (idx.zip w1.ms).map (fun (k, m) => if bz.contains k then "x" else code m)
+    let honest := (idx.zip w1.ms).filter (fun (k, _) => !bz.contains k)
+    let hk := (keyClasses (honest.map (fun (_, m) => match m.stage with | .done _ ks => some ks | _ => none))).toList
+    let keys := (idx.foldl (fun (acc : String × List Char) k =>
+      if bz.contains k then (acc.1 ++ "x", acc.2)
+      else match acc.2 with
+        | c :: r => (acc.1.push c, r)
+        | [] => (acc.1 ++ "-", [])) ("", hk)).1
+    s!"st={String.intercalate "," sts} keys={keys}"
   | _ => "bad-op"
 
 end Dos.DkgSim
